@@ -1074,7 +1074,8 @@ fn gen_tree(r: &mut Rng, depth: usize, leaves: &[Leaf]) -> (String, f64) {
             } else if va.abs() >= 1e-2 {
                 *r.pick(&[2.0, 3.0, -1.0, -2.0, 1.0])
             } else {
-                *r.pick(&[2.0, 3.0, 1.0])
+                // near zero only exponents whose first AND second derivative formulas are finite at 0
+                *r.pick(&[2.0, 3.0])
             };
             rescale(format!("p{} {}", hf(p), a), va.powf(p))
         }
@@ -1083,7 +1084,7 @@ fn gen_tree(r: &mut Rng, depth: usize, leaves: &[Leaf]) -> (String, f64) {
             if va.abs() < 5.0 {
                 rescale(format!("e {}", a), va.exp())
             } else {
-                (format!("c {}", a), 0.5)
+                (format!("N {}", a), -va)
             }
         }
         11 => {
@@ -1098,11 +1099,11 @@ fn gen_tree(r: &mut Rng, depth: usize, leaves: &[Leaf]) -> (String, f64) {
         12 => {
             let (a, va) = gen_tree(r, depth - 1, leaves);
             if va.abs() < 3.0 && r.chance(1, 2) {
-                // nicdf(ncdf(x)) = x up to rounding; evaluate by the identity for bookkeeping only
+                // nicdf(ncdf(x)) = x up to rounding
                 (format!("q c {}", a), va)
             } else if va.abs() < 6.0 {
-                // the value only steers later domain choices; a crude Φ is enough for that
-                (format!("c {}", a), 0.5 * (1.0 + (va / (1.0 + va * va).sqrt())))
+                // bookkeeping with the library's own f64 Φ
+                rescale(format!("c {}", a), MathFuncs::norm_cdf(&va))
             } else {
                 (format!("N {}", a), -va)
             }
@@ -1191,5 +1192,10 @@ pub fn gen_c01<W: Write>(out: &mut W, thorough: bool, seed: u64) {
 }
 
 pub fn gen_c02<W: Write>(out: &mut W, thorough: bool, seed: u64) {
-    gen_formulas(out, thorough, seed, true)
+    gen_formulas(out, thorough, seed, true);
+    // probes at the excluded point of Dom2 (a power with base exactly 0): recorded finding
+    writeln!(out, "dual2 1 {} 1 x {} {} 0", hf(0.0), hf(1.0), hf(0.0)).unwrap();
+    writeln!(out, "evalgrad2 p{} L1", hf(1.0)).unwrap();
+    writeln!(out, "evalgrad2 p{} L1", hf(2.0)).unwrap();
+    writeln!(out, "reset").unwrap();
 }
